@@ -4,6 +4,7 @@ import (
 	"fmt"
 	"go/ast"
 	"go/token"
+	"go/types"
 
 	"golang.org/x/tools/go/ssa"
 )
@@ -11,10 +12,10 @@ import (
 func init() {
 	register("C17", []string{"./internal/compact", "."}, runC17)
 	register("C45", []string{".", "./internal/compact", "./internal/rangekey", "./internal/rangekeystack"}, runC45)
-	register("C08", []string{".", "./internal/rangekey", "./internal/rangekeystack", "./internal/compact"}, runC08)
+	register("C08", []string{".", "./internal/rangekey", "./internal/rangekeystack", "./internal/compact", "./internal/keyspan"}, runC08)
 	propExplain["C17"] = "Decides guard clauses of C17 in the compaction iterator: sequence numbers are zeroed only on the true edge of isBottommostSnapshotStripe, which is IsBottommostDataLayer && stripe 0; inside Next, keys are skipped (skipInStripe / single-delete elision) only where a tombstone may be elided in the LAST snapshot stripe or where a range tombstone covers the key VISIBLY to the stripe's snapshot; inside a stripe a key is dropped only if covered visibly; range tombstones are elided only in stripe 0; every kind dispatch names all point kinds or fails closed; the snapshot list reaches the iterator (C03.G1). Does not decide that the emitted key/value is the right one."
 	propExplain["C45"] = "Decides structural clauses of C45: internal scans pin their view before reading the visible sequence number (C01.O1 for newInternalIter), release it when construction fails, and every kind dispatch in the point-collapsing iterator and scanInternalImpl names all point / range-key kinds or fails closed. Does not decide replay equivalence."
-	propExplain["C08"] = "Decides the dispatch clause of C08: every switch over the range-key kinds (coalescing, user-iterator shadowing, encode/decode, memtable routing) names RangeKeySet, RangeKeyUnset and RangeKeyDelete or fails closed, and memTable.apply routes DeleteRange to the range-deletion skiplist and the three range-key kinds to the range-key skiplist (DeleteRange never removes range keys). Does not decide defragmentation or bounds (value-level)."
+	propExplain["C08"] = "Decides the dispatch clause of C08: every switch over the range-key kinds (coalescing, user-iterator shadowing, encode/decode, memtable routing) names RangeKeySet, RangeKeyUnset and RangeKeyDelete or fails closed, and memTable.apply routes DeleteRange to the range-deletion skiplist and the three range-key kinds to the range-key skiplist (DeleteRange never removes range keys); and the sort-discipline clause: every sort of []keyspan.Key whose comparator ignores the trailer (CoalesceInto's by-suffix sort, on which \"the newest key at a suffix wins\" rests) is a stable sort. Does not decide defragmentation or bounds (value-level)."
 }
 
 func runC17(c *Ctx) {
@@ -66,7 +67,7 @@ func runC17(c *Ctx) {
 					}
 					bo, isB := e.(*ssa.BinOp)
 					es := res.edgeState(phi.Block().Preds[i], phi.Block())
-					if !isB || bo.Op != token.EQL || !isZeroConst(bo.Y) || pathOf(bo.X) != "snapshotIdx" || !es.has("bottom-layer") {
+					if !isB || bo.Op != token.EQL || !isZeroConst(bo.Y) || pathOf(bo.X) != ParamName(fn, 1) || !es.has("bottom-layer") {
 						ok2 = false
 					}
 				}
@@ -95,9 +96,9 @@ func runC17(c *Ctx) {
 	if fn := c.Fn("C17.G2", "compact.(*Iter).Next"); fn != nil {
 		fl := NewFlow(c.P).
 			Edge("elidable", BoolGuard("delElider.ShouldElide()", true)).
-			Edge("last-stripe", CmpGuard(token.EQL, "i.curSnapshotIdx", "0")).
+			Edge("last-stripe", CmpGuard(token.EQL, "recv.curSnapshotIdx", "0")).
 			Edge("covered-visibly", coversEq(visibly)).
-			Edge("resuming-after-emitted-key", BoolGuard("i.skip", true)).
+			Edge("resuming-after-emitted-key", BoolGuard("recv.skip", true)).
 			Derive("skip-justified", []string{"elidable", "last-stripe"}, []string{"covered-visibly"}, []string{"resuming-after-emitted-key"}).
 			IterationLocal("elidable", "last-stripe", "covered-visibly", "skip-justified")
 		res := fl.Analyze(fn, emptyState())
@@ -153,7 +154,7 @@ func runC17(c *Ctx) {
 					return false
 				}
 				f := fieldVar(fa.X.Type(), fa.Field)
-				return f != nil && f.Name() == "Snapshots" && pathOf(st.Val) == "snapshots"
+				return f != nil && f.Name() == "Snapshots" && pathOf(st.Val) == snapshotsParam(fn)
 			})) {
 				_ = in
 				found = true
@@ -225,6 +226,7 @@ func runC08(c *Ctx) {
 	if n < 15 {
 		c.Unresolved("C08.T1", "fewer than 15 kind switches found")
 	}
+	runC08S1(c)
 	// memtable routing
 	fn := c.Fn("C08.T2", "p.(*memTable).apply")
 	if fn == nil {
@@ -273,5 +275,117 @@ func runC08(c *Ctx) {
 	}
 	if !found {
 		c.Unresolved("C08.T2", "routing switch not found in memTable.apply")
+	}
+}
+
+// runC08S1: sort discipline on range keys. Range-key shadowing ("the newest key at a suffix
+// wins") is decided after sorting a span's keys; a sort whose comparator does not itself order
+// by trailer relies on the input order (trailer descending) being preserved among equal
+// elements, so it has to be a STABLE sort. Every sort over []keyspan.Key in the engine
+// packages either compares the trailer or is stable.
+func runC08S1(c *Ctx) {
+	keyT := c.P.TypeByPath("keyspan.Key")
+	if keyT == nil {
+		c.Unresolved("C08.S1", "type keyspan.Key not found")
+		return
+	}
+	stable := map[string]bool{"slices.SortStableFunc": true, "sort.SliceStable": true, "sort.Stable": true}
+	unstable := map[string]bool{"slices.SortFunc": true, "sort.Slice": true, "sort.Sort": true}
+	readsTrailer := func(fn *ssa.Function) bool {
+		seen := map[*ssa.Function]bool{}
+		var walk func(f *ssa.Function, d int) bool
+		walk = func(f *ssa.Function, d int) bool {
+			if f == nil || seen[f] || d > 3 {
+				return false
+			}
+			seen[f] = true
+			for _, b := range f.Blocks {
+				for _, in := range b.Instrs {
+					switch x := in.(type) {
+					case *ssa.FieldAddr:
+						if fv := fieldVar(x.X.Type(), x.Field); fv != nil && fv.Name() == "Trailer" {
+							return true
+						}
+					case *ssa.Field:
+						if fv := fieldVar(x.X.Type(), x.Field); fv != nil && fv.Name() == "Trailer" {
+							return true
+						}
+					case *ssa.Call:
+						if cal := x.Common().StaticCallee(); cal != nil && cal.Signature.Recv() != nil && types.Identical(derefT(cal.Signature.Recv().Type()), keyT) {
+							if walk(cal, d+1) {
+								return true
+							}
+						}
+					}
+				}
+			}
+			return false
+		}
+		return walk(fn, 0)
+	}
+	nStableRequired := 0
+	for _, fn := range c.P.AllFuncs {
+		top := TopLevel(fn)
+		if top.Pkg == nil || !enginePkg(top.Pkg.Pkg.Path()) {
+			continue
+		}
+		for _, b := range fn.Blocks {
+			for _, in := range b.Instrs {
+				call, ok := in.(*ssa.Call)
+				if !ok {
+					continue
+				}
+				cal := call.Common().StaticCallee()
+				if cal == nil {
+					continue
+				}
+				base := cal
+				if o := cal.Origin(); o != nil {
+					base = o
+				}
+				if base.Pkg == nil {
+					continue
+				}
+				name := base.Pkg.Pkg.Name() + "." + base.Name()
+				if !stable[name] && !unstable[name] {
+					continue
+				}
+				args := call.Common().Args
+				if len(args) < 2 {
+					continue // sort.Sort / sort.Stable on an interface: element type not visible here
+				}
+				st, ok := stripConv(args[0]).Type().Underlying().(*types.Slice)
+				if !ok || !types.Identical(st.Elem(), keyT) {
+					if mi, isMI := args[0].(*ssa.MakeInterface); isMI {
+						if st2, ok2 := mi.X.Type().Underlying().(*types.Slice); ok2 && types.Identical(st2.Elem(), keyT) {
+							st, ok = st2, true
+						}
+					}
+					if !ok || st == nil || !types.Identical(st.Elem(), keyT) {
+						continue
+					}
+				}
+				var cmpFn *ssa.Function
+				switch f := args[1].(type) {
+				case *ssa.MakeClosure:
+					cmpFn, _ = f.Fn.(*ssa.Function)
+				case *ssa.Function:
+					cmpFn = f
+				}
+				total := cmpFn != nil && readsTrailer(cmpFn)
+				okk := total || stable[name]
+				if !total {
+					nStableRequired++
+				}
+				detail := ""
+				if !okk {
+					detail = "the comparator does not order by trailer, so which of several keys with an equal suffix comes first depends on the sort preserving the input order; " + name + " does not (beyond 12 elements): an older RangeKeySet/Unset can shadow a newer one"
+				}
+				c.Ob("C08.S1", fn, "sort of range keys by "+map[bool]string{true: "a trailer-aware comparator", false: "a comparator that ignores the trailer is stable"}[total], c.P.Pos(call.Pos()), okk, detail)
+			}
+		}
+	}
+	if nStableRequired == 0 {
+		c.Unresolved("C08.S1", "no sort of []keyspan.Key with a trailer-blind comparator found (CoalesceInto's suffix sort expected)")
 	}
 }
